@@ -16,6 +16,9 @@ USES = {
             "rect_closed_form", "shrink_t", "shrink_logt", "trap_shift",
             "weight_shift", "exp_rules", "sum_nonneg_ico", "sum_pos_ico"],
     "C04": ["unique_complement_enum", "disjoint_increasing_cover"],
+    "C03": ["unique_complement_enum", "disjoint_increasing_cover",
+            "sum_congr_range", "sum_split_ico", "sum_last_ico",
+            "sum_mul_ico", "sum_div_ico", "exp_rules"],
     "C16": ["ess_bounds", "ess_scale", "weights_sum_one", "exp_rules",
             "sum_congr_range", "sum_nonneg_ico", "sum_pos_ico"],
 }
